@@ -180,13 +180,13 @@ EvStep ==
   /\ E.ev = "step"
   /\ LET e == E.env
          rec == [obs |-> lastObs[e], act |-> E.act, r |-> E.r4, next |-> E.obs, term |-> E.term, trunc |-> E.trunc]
-         ended == E.term \/ E.trunc
+         ended == CEpisodeEnds(E.term, E.trunc)   \* also a step that carries BOTH flags ends its episode - once
      IN
      /\ queue' = [queue EXCEPT ![e] = Append(@, rec)]
      /\ lastObs' = [lastObs EXCEPT ![e] = E.obs]
      /\ phase' = [phase EXCEPT ![e] = IF ended THEN "ended" ELSE phase[e]]
      /\ executed' = executed + 1
-     /\ epsDone' = IF ended /\ ~E.after_end THEN epsDone + 1 ELSE epsDone
+     /\ epsDone' = IF ~E.after_end THEN epsDone + CEpisodesEnded(E.term, E.trunc) ELSE epsDone
      /\ pend' = [pend EXCEPT ![e] = [src |-> "none", act |-> "none"]]
      /\ UNCHANGED autoq
      /\ Fail(Common
@@ -205,6 +205,14 @@ EvStep ==
              update and executed after it is judged against the updated estimate. *)
           \cup (IF E.has_q /\ Eps4 = 0 /\ C.start + executed >= C.warmact /\ ~CIsMaximiser(E.qrow, E.acti + 1)
                 THEN {"ExecutedActionGreedy"} ELSE {})
+          (* C10, last clause, at the configured exploration noise level 0 (cfg.expl_noise8 = 8 * level; -1 = the routine
+             has no such parameter): the action the environment receives after a policy evaluation is exactly the clipped
+             action of the LIVE policy at the observation the environment returned last.  E.pol = that action (float32
+             ordinals), evaluated by the environment's execution probe when it receives the action - independent of the
+             routine's own sampler, so a sampler built with any other noise-like parameter (target policy noise, noise
+             clip ...), all of which are non-zero and pairwise different in every scenario, shows. *)
+          \cup (IF C.expl_noise8 = 0 /\ E.has_pol /\ E.box /\ pend[e].src = "policy" /\ ~CUnperturbed(E.a, E.pol, E.lo, E.hi)
+                THEN {"ExplorationNoiseScale"} ELSE {})
           \cup (IF C.policy_probe /\ pend[e].src = "none" THEN {"ActionWithoutChoice"} ELSE {}))
 
 (* a transition kept for learning: must be the oldest produced-but-unstored one of that stream *)
